@@ -465,7 +465,7 @@ func oneLine(s string) string {
 
 func run(c *vf.Ctx) {
 	g := gitx.New(c.Scratch)
-	nbases := c.N(1, 4)
+	nbases := c.N(1, 3)
 	var bases []*base
 	for i := 0; i < nbases; i++ {
 		bases = append(bases, buildBase(c, g, c.Rand("base", i)))
@@ -559,7 +559,7 @@ func run(c *vf.Ctx) {
 			pts = keep
 			c.Count("operations_with_sampled_points", 1)
 		}
-		vf.Parallel(len(pts), 8, func(pi int) {
+		vf.Parallel(len(pts), 12, func(pi int) {
 			pt := pts[pi]
 			d := filepath.Join(work, fmt.Sprintf("k%d-%v", pt.k, pt.torn))
 			prep(d)
@@ -618,10 +618,10 @@ func run(c *vf.Ctx) {
 	}
 	c.Extra("git_invocations", gitx.Calls.Load())
 	c.Extra("exhaustive_over_recorded_prefixes", !c.Quick())
-	c.Floor("operations recorded", c.Counter("operations"), c.N(14, 50))
+	c.Floor("operations recorded", c.Counter("operations"), c.N(14, 40))
 	c.Floor("operation kinds", c.SeenCount("op_kinds"), 14)
-	c.Floor("crash states examined", c.Counter("crash_states"), c.N(250, 8000))
-	c.Floor("torn-write states examined", c.Counter("torn_states"), c.N(40, 1500))
+	c.Floor("crash states examined", c.Counter("crash_states"), c.N(250, 5000))
+	c.Floor("torn-write states examined", c.Counter("torn_states"), c.N(40, 1000))
 	c.Assume("process-stop crash model: completed fs operations are durable and ordered; no power-loss reordering; the interrupted write may be torn (half applied)")
 	c.Assume("after the crash point every further mutation (including deferred clean-up in the same process) is refused, as if the process had died")
 	c.Assume("index and config readability count as 'can be opened' (the property lists index and config writes among the mutations)")
